@@ -73,9 +73,12 @@ DecMid == {-2, 0, 2}
 DecTwo == {-2, 2}
 DecZero == {0}
 Cap1 == <<1, 1>>
+OdeCfgsA == << [name |-> "dep1000", dep |-> <<1000, 1>>, indep |-> <<1, 1>>],
+               [name |-> "dep1/50", dep |-> <<1, 50>>, indep |-> <<1, 1>>],
+               [name |-> "dep7-indep13", dep |-> <<7, 1>>, indep |-> <<13, 1>>] >>
 NewKsA == {<<7, 1>>, <<1, 20>>}
 (* ASCII order of every substance name used in the pools (what sorting by name gives) *)
-NameOrderA == << "C3H5OH", "C3H6O", "CH2C(OH)CH3", "CH2CHCH2OH", "CH3CH2CHO", "CH3CHCHOH", "CH3COCH3", "H", "H+", "H2", "H2O", "H2O2", "HO2", "M", "N2", "N2O4", "NH3", "NO", "NO2", "O(CH2)3", "O2", "O2-", "OH", "OH-", "ONO", "ONONO2", "e-", "hv" >>
+NameOrderA == << "C3H5OH", "C3H6O", "CH2C(OH)CH3", "CH2CHCH2OH", "CH3CH2CHO", "CH3CHCHOH", "CH3COCH3", "Fe+3", "Fe2O3", "FeO", "FeO1.5", "H", "H+", "H2", "H2O", "H2O2", "HO2", "M", "N2", "N2O4", "NH3", "NO", "NO2", "O(CH2)3", "O0.5-", "O2", "O2-", "OH", "OH-", "ONO", "ONONO2", "e-", "hv" >>
 BuildCfgsA == << [name |-> "default", checked |-> TRUE], [name |-> "checks_balance", checked |-> TRUE],
                  [name |-> "checks_all_listed", checked |-> TRUE], [name |-> "dont_check_duplicate", checked |-> TRUE],
                  [name |-> "dont_check_balance", checked |-> FALSE], [name |-> "checks_none", checked |-> FALSE],
@@ -111,6 +114,16 @@ UnitsA == << U("min-M", "minute", "molar", "minute", "molar", "minute", "molar")
              U("h-uM", "hour", "micromolar", "minute", "millimolar", "hour", "millimolar"),
              U("s-mM", "second", "millimolar", "second", "millimolar", "second", "millimolar") >>
 PoolW == <<OHm, Hp, H2O>>
+(* fractional composition counts: comp / den *)
+SD(name, comp, den) == [name |-> name, comp |-> comp, den |-> den]
+FeO15 == SD("FeO1.5", <<<<8, 3>>, <<26, 2>>>>, 2)
+Fe2O3 == SD("Fe2O3",  <<<<8, 3>>, <<26, 2>>>>, 1)
+FeOx  == SD("FeO",    <<<<8, 1>>, <<26, 1>>>>, 1)
+O2d   == SD("O2",     <<<<8, 2>>>>, 1)
+Fe3p  == SD("Fe+3",   <<<<0, 3>>, <<26, 1>>>>, 1)
+O05m  == SD("O0.5-",  <<<<0, -2>>, <<8, 1>>>>, 2)
+PoolFrac == <<FeO15, O2d, Fe2O3, FeOx>>
+PoolFracT == <<FeO15, O2d, Fe2O3, FeOx, Fe3p, O05m>>
 (* substances that are composed of nothing: a third body, a photon *)
 Mbody == S("M", <<>>)
 Photon == S("hv", <<>>)
